@@ -6,6 +6,7 @@ four ways.  All 256 subsets x 8 starting versions x explicit/implicit x rejectio
 the versions carried by the OPTIONS/STARTUP frames the node received are compared with the chain
 the statement prescribes.
 """
+from vt import sched
 from vt.core import Part, HarnessError
 
 META = {
@@ -125,6 +126,12 @@ def run_case(start, explicit, supported, style, part):
                     cluster.shutdown()
                 except Exception:
                     pass
+    judge(srv, case, outcome, err, negotiated, part, '')
+
+
+def judge(srv, case, outcome, err, negotiated, part, layer):
+    """The oracle, shared by the sequential (layer '') and the schedule layer (layer 'sched/')."""
+    start, explicit, supported, style = case['start'], case['explicit'], case['supported'], case['style']
     # attempts: version of the first handshake frame of every connection, in order; the negotiation ends
     # with the first connection whose STARTUP the node accepted
     firsts = []
@@ -137,7 +144,7 @@ def run_case(start, explicit, supported, style, part):
         if op == 'STARTUP' and v in supported and accepted_at is None:
             accepted_at = seen[vid]
     want, ok = expected(start, explicit, supported)
-    tag = 'explicit' if explicit else 'implicit'
+    tag = layer + ('explicit' if explicit else 'implicit')
     part.count('evaluations')
     part.count('executions')
     part.count('transitions', len(firsts))
@@ -149,7 +156,7 @@ def run_case(start, explicit, supported, style, part):
     if any(b >= a for a, b in zip(got, got[1:])):
         part.violation('C41/not-strictly-decreasing/%s/%s' % (tag, style), 'attempt versions %r; case %r' % (firsts, case), case)
     elif explicit and len(got) > 1:
-        part.violation('C41/explicit-version-retried/%s' % style, 'attempt versions %r; case %r' % (firsts, case), case)
+        part.violation('C41/explicit-version-retried/%s%s' % (layer, style), 'attempt versions %r; case %r' % (firsts, case), case)
     elif got != want:
         cls = 'beta-version-tried' if any(v == 6 for v in got[1:]) else ('gave-up-early' if len(got) < len(want) else 'wrong-chain')
         part.violation('C41/%s/%s/%s' % (cls, tag, style), 'attempt versions %r, expected %r; outcome %s %r; case %r' % (
@@ -167,10 +174,212 @@ def run_case(start, explicit, supported, style, part):
             part.violation('C41/later-connection-other-version/%s/%s' % (tag, style),
                            'after negotiating %r further connections used %r; case %r' % (negotiated, later, case), case)
     part.outcome((tag, style, outcome, tuple(firsts), type(err).__name__))
+    if layer:
+        return firsts, want, ok
     if len(want) > 1:
         part.mark_nontrivial(repr((start, tuple(want), ok, style)))
     if len(want) >= 3:
         part.sample({'case': case, 'attempt_versions': firsts, 'outcome': outcome, 'error': repr(err)[:200]}, limit=1)
+
+
+# ====================================================================== schedule layer (engine S)
+def sched_focus():
+    """Code objects whose source lines are scheduling points: the reactor side of a rejected handshake
+    (process_msg, defunct, the handshake response handlers) and the connecting side (Connection.factory,
+    ControlConnection._try_connect, Cluster.protocol_downgrade)."""
+    import cassandra.cluster as cl
+    import cassandra.connection as cn
+
+    def code(f):
+        f = getattr(f, '__func__', f)
+        f = getattr(f, '__wrapped__', f)          # defunct_on_error uses functools.wraps
+        return f.__code__
+    C = cn.Connection
+    return [code(C.process_msg), code(C.defunct), code(C.factory), code(C.error_all_requests),
+            code(C._handle_options_response), code(C._handle_startup_response),
+            code(cl.ControlConnection._try_connect), code(cl.Cluster.protocol_downgrade)]
+
+
+_FOCUS = []
+
+
+@sched.gc_quiet
+def sched_harness(params, prefix, part):
+    """One execution of Cluster.connect() by a client thread while a reactor thread delivers every frame the
+    node sends (one frame per turn, like a reactor's handle_read) and one executor worker runs the queued
+    tasks.  params: the case dict of run_case."""
+    from vt.world.vworld import World
+    from cassandra.cluster import _NOT_SET
+    if not _FOCUS:
+        _FOCUS.extend(sched_focus())
+    start, explicit, supported, style = params['start'], params['explicit'], params['supported'], params['style']
+    srv = make_server(frozenset(supported), style)
+    w = World(srv)
+    res = {'outcome': None, 'err': None}
+    with w:
+        cluster = None
+        try:
+            if explicit:
+                cluster = w.make_cluster(protocol_version=start)
+            else:
+                cluster = w.make_cluster(protocol_version=_NOT_SET)
+                if cluster.protocol_version != start:
+                    cluster.protocol_version = start
+            s = sched.Scheduler(prefix, focus=_FOCUS, horizon=40000, clock=w.clock)
+            busy = [0]
+            stop = [False]
+            done = [False]
+
+            def join_executor(ex):
+                s.block(lambda: busy[0] == 0 and not any(t[5] is ex for t in w.tasks), None, 'executor.shutdown(wait=True)')
+            w.executor_join = join_executor
+
+            def client():
+                try:
+                    cluster.connect()
+                    res['outcome'] = 'connected'
+                except Runaway as e:
+                    res['outcome'], res['err'] = 'runaway', e
+                except Exception as e:
+                    res['outcome'], res['err'] = 'error', e
+                finally:
+                    done[0] = True
+
+            def worker():
+                while True:
+                    if not w.tasks:
+                        s.block(lambda: bool(w.tasks) or stop[0], None, 'worker idle')
+                    if not w.tasks:
+                        return
+                    busy[0] += 1
+                    try:
+                        w.run_task(0)
+                    finally:
+                        busy[0] -= 1
+                    s.point('task.done')
+
+            def reactor():
+                s.current.waiting = None
+                while True:
+                    if not srv.outbox:
+                        s.block(lambda: bool(srv.outbox) or stop[0], None, 'reactor idle')
+                    if srv.outbox:
+                        w.deliver_outbox(1)
+                    elif stop[0]:
+                        return
+
+            def quiet():
+                return done[0] and busy[0] == 0 and not w.tasks and not srv.outbox
+
+            def janitor():
+                s.current.waiting = None
+                s.block(quiet, None, 'quiescence')
+                stop[0] = True
+
+            s.spawn(client, 'client')
+            s.spawn(worker, 'worker')
+            # reactor and janitor are born waiting (a thread that has not started would otherwise be offered as an
+            # alternative at every point although it has nothing to do)
+            s.spawn(reactor, 'reactor').waiting = lambda: bool(srv.outbox) or stop[0]
+            s.spawn(janitor, 'janitor').waiting = quiet
+            try:
+                s.run()
+            finally:
+                w.executor_join = None
+        finally:
+            negotiated = cluster.protocol_version if cluster is not None else None
+            if cluster is not None:
+                try:
+                    cluster.shutdown()            # outside the scheduler: sequential mode again
+                except Exception:
+                    pass
+    data = dict(params, prefix=s.choices())
+    tag = 'explicit' if explicit else 'implicit'
+    if s.failure:
+        part.count('executions')
+        part.violation('C41/sched/%s/%s/%s' % (s.failure[0], tag, style), '%s; case %r' % (s.failure[1], data), data)
+        return s
+    for t in s.threads:
+        if t.exc is not None:
+            raise HarnessError('%r in virtual thread %s of case %r\n%s' % (t.exc, t.name, data, getattr(t, 'exc_tb', '')))
+    r = judge(srv, data, res['outcome'], res['err'], negotiated, part, 'sched/')
+    if r is not None:
+        firsts, want, ok = r
+        if any(p.chosen for p in s.trace) and len(want) > 1:
+            part.mark_nontrivial(repr((start, explicit, tuple(supported), style, tuple(s.choices()))))
+        if len(want) >= 2 and any(p.chosen for p in s.trace):
+            part.sample({'case': params, 'choices': s.choices(), 'attempt_versions': firsts, 'outcome': res['outcome'],
+                         'error': repr(res['err'])[:200]}, limit=1)
+    return s
+
+
+def sched_cases(thorough):
+    """Negotiation scenarios of the schedule layer: the node rejects the first version (each style) and accepts a
+    lower one one or two steps down; all rejected; an explicit version rejected."""
+    out = []
+    for style in STYLES:
+        scen = [(0x42, False, [0x41, 5, 4]),        # default start, one step down (DSE_V1)
+                (0x42, False, [5, 4, 3]),           # two steps down, ends at v5 (segment framing after STARTUP)
+                (5, False, [4, 3]),                 # state left by earlier downgrades, one step
+                (4, False, [1]),                    # three steps down to the lowest version
+                (3, False, []),                     # everything rejected: gives up after v1
+                (5, True, [4, 3])]                  # explicit version rejected: no retry
+        if thorough:
+            scen += [(0x42, False, [1]), (0x42, False, []), (0x41, False, [4]), (5, False, [3]), (4, False, [3, 2]),
+                     (2, False, [1]), (0x42, True, [0x41]), (4, True, [])]
+        for start, explicit, supported in scen:
+            out.append({'start': start, 'explicit': explicit, 'supported': supported, 'style': style})
+    return out
+
+
+def _sched_root(job):
+    _quiet()
+    params, bound = job
+    part = Part()
+    s = sched_harness(params, [], part)
+    part.count('sched_executions')
+    part.count('sched_steps', s.steps)
+    return part, [k for k, _ in sched.children(s.trace, 0, bound)], len(s.trace)
+
+
+def _sched_sub(job):
+    _quiet()
+    params, bound, frontier = job
+    part = Part()
+    while frontier:
+        nxt = []
+        for prefix in frontier:
+            s = sched_harness(params, prefix, part)
+            part.count('sched_executions')
+            part.count('sched_steps', s.steps)
+            nxt.extend(k for k, _ in sched.children(s.trace, len(prefix), bound))
+        frontier = nxt
+    return part
+
+
+def _quiet():
+    import logging
+    logging.getLogger('cassandra').setLevel(logging.CRITICAL + 1)
+    from vt import connlib
+    connlib.quiet_driver_logs()
+
+
+def run_sched(ctx):
+    bound = 1
+    jobs = [(c, bound) for c in ctx.rotate(sched_cases(ctx.thorough))]
+    roots = ctx.pmap(_sched_root, jobs)
+    sub = []
+    maxpts = 0
+    for (c, b), (part, kids, npts) in zip(jobs, roots):
+        ctx.merge(part)
+        maxpts = max(maxpts, npts)
+        k = max(1, min(len(kids), 8))
+        sub += [(c, b, kids[i::k]) for i in range(k)if kids[i::k]]
+    for part in ctx.pmap(_sched_sub, sub):
+        ctx.merge(part)
+    n = ctx.counters.get('sched_executions', 0)
+    ctx.cov.setdefault('harnesses', {})['c41-sched'] = {'cases': len(jobs), 'preemption_bound': bound, 'executions': n,
+                                                         'max_choice_points': maxpts, 'complete': True}
 
 
 def run_chunk(item):
@@ -198,6 +407,7 @@ def run(ctx):
     connlib.before_fork()
     for part in ctx.pmap(run_chunk, [cases[i::n] for i in range(n)]):
         ctx.merge(part)
+    run_sched(ctx)
     ctx.count('states', len(ctx.outcomes))
     ctx.cov['rule'] = ('%d runs = 8 start versions x {explicit, implicit} x 256 supported sets x %d rejection styles %s; states = distinct observed (configuration kind, style, outcome, sequence of attempt versions); transitions = '
                        'connection attempts observed at the node; non-trivial = distinct (start, expected chain, outcome, style) with at '
